@@ -1886,6 +1886,20 @@ def _perturbations(prng, count):
 
 
 def _check_unmasked_irrelevant(case, fixed, mobile, mask):
+    """Runs `_check_unmasked_irrelevant_inner` in a forked child: non-finite values that leak into LAPACK can make it
+    spin forever; a hang or a dead process is a verdict with this case as the failing input, never a dead check."""
+    from common import sandbox
+    res = sandbox.run_forked(_check_unmasked_irrelevant_inner, case, fixed, mobile, mask, timeout=20)
+    if res[0] == "ok":
+        return res[1]
+    p = case["poison"]
+    what = {"timeout": "did not return within 20 s", "crash": f"killed the process (signal {res[1] if len(res) > 1 else '?'})"}.get(
+        res[0], f"raised {res[1:]}")
+    return [("C16/superimpose/unmasked-atoms-influence-fit",
+             f"superimpose {what} with {p['value']} in {p['where']} atom(s) {p['idx']} OUTSIDE the mask; all selected atoms are finite")]
+
+
+def _check_unmasked_irrelevant_inner(case, fixed, mobile, mask):
     """'No other placement has a lower RMSD over the MASKED atoms': atoms outside the mask must not matter.
     The transformation of the masked fit must be bit-identical to the fit of the selected sub-arrays alone, also
     when unselected atoms carry NaN / inf / huge / different coordinates."""
@@ -2240,6 +2254,17 @@ def _oracle_homc(case):
 
 
 def _oracle_refuse(case):
+    """Forked for the classes that feed non-finite / empty data to LAPACK (a hang or crash is a verdict)."""
+    if case.get("what") in ("nonfinite-selected", "empty-selection", "woo-empty", "overflowing-coordinates"):
+        from common import sandbox
+        res = sandbox.run_forked(_oracle_refuse_inner, case, timeout=20)
+        if res[0] == "ok":
+            return res[1]
+        return [(f"C16/refuse/{case['what']}/hang-or-crash", f"the call `{case['what']}` ended as {res}")]
+    return _oracle_refuse_inner(case)
+
+
+def _oracle_refuse_inner(case):
     import random
     import numpy as np
     import biotite.structure as struc
